@@ -717,8 +717,86 @@ func targets17(r *rng.R, con *gt.T) []cty.Type {
 	return ts
 }
 
+// corpus17: minimal inputs of defects met before (each was a panic, a crash or a nonconforming /
+// ill-formed result at some point); they run first, through the same oracle and model cases
+type corpus17 struct {
+	dec   string
+	input []byte
+	ty    cty.Type
+}
+
+func corpusInputs() []corpus17 {
+	obj := func(m map[string]cty.Type) cty.Type { return cty.Object(m) }
+	ext := func(body ...byte) []byte { return append([]byte{0xc7, byte(len(body)), 0x0c}, body...) }
+	tyOpt := []byte(`["object",{"a":"string"},["a"]]`)
+	wrapMP := func(tj []byte, val ...byte) []byte {
+		return append(append([]byte{0x92, 0xc4, byte(len(tj))}, tj...), val...)
+	}
+	cs := []corpus17{
+		// contradictory / out-of-range / wrongly typed refinements
+		{dMPValue, ext(0x82, 0x01, 0xc3, 0x02, 0xa2, 'a', 'b'), cty.String},
+		{dMPValue, ext(0x82, 0x01, 0xc2, 0x01, 0xc3), cty.String},
+		{dMPValue, ext(0x82, 0x03, 0x92, 0x05, 0xc3, 0x04, 0x92, 0x01, 0xc3), cty.Number},
+		{dMPValue, ext(0x82, 0x05, 0x03, 0x06, 0x01), cty.List(cty.String)},
+		{dMPValue, ext(0x81, 0x05, 0xff), cty.Set(cty.Number)},
+		{dMPValue, ext(0x81, 0x02, 0xa1, 'x'), cty.Number},
+		{dMPValue, ext(0x81, 0x03, 0x92, 0xd4, 0x00, 0x00, 0xc3), cty.Number},
+		{dMPValue, ext(0x81, 0x03, 0x92, 0x01, 0xd4, 0x00, 0x00), cty.Number},
+		{dMPValue, ext(0x81, 0x03, 0x92, 0xcb, 0x7f, 0xf8, 0, 0, 0, 0, 0, 1, 0xc3), cty.Number},
+		// NaN items
+		{dMPValue, []byte{0xcb, 0x7f, 0xf8, 0, 0, 0, 0, 0, 1}, cty.Number},
+		{dMPValue, []byte{0xca, 0x7f, 0xc0, 0, 0}, cty.Number},
+		{dMPValue, []byte{0x91, 0xcb, 0xff, 0xf8, 0, 0, 0, 0, 0, 0}, cty.List(cty.Number)},
+		// empty array / map for a non-empty structure; repeated attribute in place of a missing one; two spellings of one attribute
+		{dMPValue, []byte{0x90}, cty.Tuple([]cty.Type{cty.String})},
+		{dMPValue, []byte{0x80}, obj(map[string]cty.Type{"a": cty.String})},
+		{dMPValue, []byte{0x82, 0xa1, 'a', 0x01, 0xa1, 'a', 0x02}, obj(map[string]cty.Type{"a": cty.Number, "b": cty.Number})},
+		{dMPValue, []byte{0x82, 0xa2, 0xc3, 0xa9, 0x01, 0xa3, 0x65, 0xcc, 0x81, 0x02}, obj(map[string]cty.Type{"\u00e9": cty.Number, "x": cty.Number})},
+		{dMPValue, []byte{0x92, 0x82, 0xa2, 0xc3, 0xa9, 0x01, 0xa3, 0x65, 0xcc, 0x81, 0x02, 0xc0}, cty.Tuple([]cty.Type{obj(map[string]cty.Type{"\u00e9": cty.Number, "x": cty.Number}), cty.String})},
+		// type descriptors with optional attributes beside null / unknown / empty values
+		{dMPValue, wrapMP(tyOpt, 0xc0), cty.DynamicPseudoType},
+		{dMPValue, wrapMP(tyOpt, 0xd4, 0x00, 0x00), cty.DynamicPseudoType},
+		{dMPValue, wrapMP([]byte(`["list",["object",{"a":"string"},["a"]]]`), 0x90), cty.DynamicPseudoType},
+		{dJSONValue, []byte(`{"type":["object",{"a":"string"},["a"]],"value":null}`), cty.DynamicPseudoType},
+		{dJSONValue, []byte(`{"type":["list",["object",{"a":"string"},["a"]]],"value":[]}`), cty.DynamicPseudoType},
+		{dJSONValue, []byte(`{"value":{"a":null},"type":["object",{"a":["object",{"b":"bool"},["b"]]}]}`), cty.DynamicPseudoType},
+		// type descriptors: undeclared optional, null where a type is expected
+		{dJSONType, []byte(`["object",{"a":"string"},["b"]]`), cty.DynamicPseudoType},
+		{dJSONType, []byte(`["list",null]`), cty.DynamicPseudoType},
+		{dJSONType, []byte(`["tuple",["string",null]]`), cty.DynamicPseudoType},
+		{dJSONType, []byte(`["object",{"a":null}]`), cty.DynamicPseudoType},
+		{dJSONType, []byte(`null`), cty.DynamicPseudoType},
+		{dJSONValue, []byte(`{"type":["list",null],"value":[]}`), cty.DynamicPseudoType},
+		{dMPValue, wrapMP([]byte(`["list",null]`), 0x90), cty.DynamicPseudoType},
+		// differently typed members under a collection of dynamic; too-short tuples
+		{dJSONValue, []byte(`[{"type":"string","value":"a"},{"type":"number","value":1}]`), cty.List(cty.DynamicPseudoType)},
+		{dJSONValue, []byte(`{"a":{"type":"string","value":"a"},"b":{"type":"bool","value":true}}`), cty.Map(cty.DynamicPseudoType)},
+		{dMPValue, append(append([]byte{0x92}, wrapMP([]byte(`"string"`), 0xa1, 'a')...), wrapMP([]byte(`"number"`), 0x01)...), cty.Set(cty.DynamicPseudoType)},
+		{dJSONValue, []byte(`[null]`), cty.Tuple([]cty.Type{cty.DynamicPseudoType, cty.DynamicPseudoType})},
+		{dJSONValue, []byte(`[[1]]`), cty.Tuple([]cty.Type{cty.Tuple([]cty.Type{cty.Number, cty.Number})})},
+		{dJSONValue, []byte(`{"a":1,"a":2}`), obj(map[string]cty.Type{"a": cty.Number, "b": cty.Number})},
+	}
+	return cs
+}
+
 func genC17(c *Ctx, r *rng.R, i int) {
 	hs := hostileInputs()
+	if cs := corpusInputs(); i >= len(hs) && i < len(hs)+len(cs) {
+		k := cs[i-len(hs)]
+		desc := map[string]interface{}{"decoder": k.dec, "input": hex.EncodeToString(k.input), "target": fmt.Sprintf("%#v", k.ty), "kind": "corpus"}
+		if k.dec == dJSONValue || k.dec == dJSONType {
+			desc["input"] = string(k.input)
+		}
+		if o, ok := decode17(c, k.dec, k.input, k.ty, desc); ok {
+			switch k.dec {
+			case dMPValue:
+				c.mpCases(k.input, k.ty, o, "corpus", desc)
+			default:
+				c.jsonCases(k.dec, k.input, k.ty, o, "corpus", desc)
+			}
+		}
+		return
+	}
 	if i < len(hs) {
 		h := hs[i]
 		desc := map[string]interface{}{"decoder": h.dec, "input": h.spec, "target": fmt.Sprintf("%#v", h.ty), "kind": h.name}
